@@ -722,6 +722,19 @@ func mergeAndPersistSynonymSection(segments []*SegmentBase, dropsIn []*roaring.B
 		if err != nil {
 			return nil, nil, err
 		}
+
+		if len(synTermMap) == 0 {
+			// none of this thesaurus' synonyms survived the merge: record no
+			// synonym section for the field, since a thesaurus block without
+			// a synonym table (NST) is not a valid block
+			vellumBuf.Reset()
+			err = newVellum.Reset(&vellumBuf)
+			if err != nil {
+				return nil, nil, err
+			}
+			continue
+		}
+
 		vellumData := vellumBuf.Bytes()
 
 		thesOffset := uint64(w.Count())
